@@ -115,3 +115,11 @@ _p('C04', ['r_flow'],
    'indices) must be fed by the same-named input field per the field map of wasm-encoder\'s reencoder; every section '
    'entry must allocate exactly one record of its kind.',
    not_decided='byte equality of data payloads beyond "the same vector flows"; behaviour of wasm-encoder itself')
+
+_p('C14', ['r_gates', 'r_features'],
+   'Configuration switches: Module::emit_wasm is evaluated with nothing inlined, so every world is one combination of the '
+   'boolean switches and its trace is the list of emit steps; name/producers/DWARF/code-transform steps must run exactly '
+   'under their switch and every other step must be switch-independent. Setters are evaluated for polarity, '
+   'ModuleProducers::field for replace-by-name, Module::parse (MIR) for a single non-loop add_processed_by and a single, '
+   'last, non-loop on_parse call; the wasmparser feature set is extracted and compared with the property.',
+   not_decided='that the bytes of the producers/name sections written by wasm-encoder are what the fields say (trusted)')
